@@ -29,8 +29,16 @@ def _seg_state():
 
 
 def _inline(ctx):
-    return {'cartesienne': ctx.prog.func(GEO + '.cartesienne'),
-            'projection_droite': ctx.prog.func(GEO + '.projection_droite')}
+    """helpers walked in place of their calls: the two named ones, and every other loop-free module-level function of the geometry
+    module (a refactoring may route the distance through dist_point_droite, or through a helper of its own)"""
+    out = {}
+    for q, fi in ctx.prog.functions.items():
+        if q.startswith(GEO + '.') and fi.cls is None and fi.parent is None and fi.name not in ('proj_segment', 'proj_polyligne') \
+                and not any(isinstance(n_, (ast.For, ast.While, ast.Try, ast.With)) for n_ in ast.walk(fi.node)):
+            out[fi.name] = fi
+    out['cartesienne'] = ctx.prog.func(GEO + '.cartesienne')
+    out['projection_droite'] = ctx.prog.func(GEO + '.projection_droite')
+    return out
 
 
 def rule_L(ctx):
